@@ -165,6 +165,15 @@ def run_case(ctx):
     if not tool.writer:
         arms = [("clean", 1), ("unreadable", 3)] + ([("unknown", 2)] if name == "pestle" else [])
     arm = src.weighted("arm", arms)
+    if name == "mandoline" and ctx.tier == "thorough" and src.flag("image", 10):
+        # image output (matplotlib, dpi=500: seconds per figure): thorough tier only, a single field,
+        # clean / one-fault arms only; the writes of the PNG encoder go through the same seams
+        tool.fformat = "image"
+        tool.fields = [f for f in tool.fields if f not in ("all", "grid_level")][:1] or [tool.m.fields[0]]
+        tool.opts.update(fformat="image", fields=tool.fields)
+        tool.preexisting = False
+        arm = "clean"
+        ctx.probe("mandoline_image_format")
     sched_seed = src.draw("sched", 0, 9999)
     sig = {"property": ID, "tool": name, "entry": "cli" if tool.opts.get("cli") else "api"}
     form_special = tool.opts.get("out") == "default" or str(tool.opts.get("in_form", "")).endswith("/")
